@@ -33,6 +33,7 @@ import (
 	"net/http"
 	"net/url"
 	"strconv"
+	"sync"
 
 	"github.com/ysugimoto/falco/v2/interpreter"
 	"github.com/ysugimoto/falco/v2/interpreter/context"
@@ -68,6 +69,11 @@ type tcase struct {
 	Functional bool     `json:"functional"`
 	// lifecycle histories emitted by spec/LifecycleTotal.tla (same shape as Lifecycle.tla behaviours)
 	Reqs []lcReq `json:"reqs"`
+	// esi family
+	Doc    []string `json:"doc"`
+	Out    []string `json:"out"`
+	ExpErr bool     `json:"experr"`
+	Route  string   `json:"route"`
 	// vars family
 	Name string `json:"name"`
 	// bigcalls family
@@ -490,6 +496,8 @@ func run(args []string) int {
 			r = runBigCalls(c)
 		case "vars":
 			r = runVars(c)
+		case "esi":
+			r = runEsi(c)
 		case "initerr":
 			r = runInitErr(c)
 		case "director":
@@ -608,6 +616,8 @@ func lcStmt(b string) string {
 }
 
 var stub *httptest.Server
+var stubMu sync.Mutex
+var stubBodies = map[string]string{}
 
 func stubBackend() string {
 	if stub == nil {
@@ -620,6 +630,17 @@ func stubBackend() string {
 			}
 			w.Header().Set("Cache-Control", "max-age=100")
 			w.WriteHeader(st)
+			if r.URL.Path == "/frag" {
+				w.Write([]byte("FRAG")) // nolint:errcheck
+				return
+			}
+			if id := r.Header.Get("X-Body"); id != "" {
+				stubMu.Lock()
+				b := stubBodies[id]
+				stubMu.Unlock()
+				w.Write([]byte(b)) // nolint:errcheck
+				return
+			}
 			w.Write([]byte("OK")) // nolint:errcheck
 		}))
 	}
@@ -892,6 +913,12 @@ func runJump(c *tcase) result {
 		stmt = "error 601;"
 	case "error_ret":
 		stmt = "return(error);"
+	case "synthetic_stmt":
+		stmt = "synthetic \"body\";"
+	case "synthetic64_stmt":
+		stmt = "synthetic.base64 \"Ym9keQ==\";"
+	case "esi_stmt":
+		stmt = "esi;"
 	default:
 		stmt = "return(" + forwardAction[c.Scope] + ");"
 	}
@@ -1023,26 +1050,56 @@ func runDirector(c *tcase) result {
 	sb.WriteString(stubBackend())
 	be := stubBackend()
 	sb.WriteString(strings.Replace(be, "backend example", "backend second", 1))
-	dtype := c.DType
-	if dtype == "chash" {
-		dtype = "chash"
+	dtype, nested := c.DType, false
+	if strings.HasSuffix(dtype, "-of-director") {
+		dtype, nested = strings.TrimSuffix(dtype, "-of-director"), true
+		sb.WriteString("director inner random {\n  { .backend = example; .weight = 1; }\n}\n")
 	}
-	fmt.Fprintf(&sb, "director d %s {\n", dtype)
-	if c.DType != "fallback" {
-		fmt.Fprintf(&sb, "  .quorum = %s%%;\n", c.Quorum)
+	target := "d"
+	if dtype == "plain" {
+		target = "second"
+	} else {
+		member := "second"
+		if nested {
+			member = "inner"
+		}
+		fmt.Fprintf(&sb, "director d %s {\n", dtype)
+		if dtype != "fallback" {
+			fmt.Fprintf(&sb, "  .quorum = %s%%;\n", c.Quorum)
+		}
+		if dtype == "random" {
+			fmt.Fprintf(&sb, "  .retries = %s;\n", num(c.Retries))
+		}
+		switch dtype {
+		case "fallback":
+			fmt.Fprintf(&sb, "  { .backend = example; }\n  { .backend = %s; }\n", member)
+		case "chash":
+			fmt.Fprintf(&sb, "  { .backend = example; .id = \"a\"; }\n  { .backend = %s; .id = \"b\"; }\n", member)
+		default:
+			fmt.Fprintf(&sb, "  { .backend = example; .weight = 500; }\n  { .backend = %s; .weight = %s; }\n", member, num(c.Weight))
+		}
+		sb.WriteString("}\n")
 	}
-	if c.DType == "random" {
-		fmt.Fprintf(&sb, "  .retries = %s;\n", num(c.Retries))
+	set := "  set req.backend = " + target + ";\n"
+	once := func(body string) string { return "  if (req.restarts == 0) {\n  " + body + "  }\n" }
+	switch c.Route {
+	case "recv-lookup":
+		sb.WriteString("sub vcl_recv {\n" + set + "  return(lookup);\n}\n")
+	case "miss":
+		sb.WriteString("sub vcl_recv {\n  return(lookup);\n}\nsub vcl_miss {\n" + set + "}\n")
+	case "pass":
+		sb.WriteString("sub vcl_recv {\n  return(pass);\n}\nsub vcl_pass {\n" + set + "}\n")
+	case "hit":
+		sb.WriteString("sub vcl_recv {\n  return(lookup);\n}\nsub vcl_hit {\n" + set + "  return(pass);\n}\n")
+	case "fetch-restart":
+		sb.WriteString("sub vcl_recv {\n  return(pass);\n}\nsub vcl_fetch {\n" + once(set+"    restart;\n") + "}\n")
+	case "error-restart":
+		sb.WriteString("sub vcl_recv {\n" + once("  error 600;\n") + "  return(pass);\n}\nsub vcl_error {\n" + once(set+"    restart;\n") + "}\n")
+	case "deliver-restart":
+		sb.WriteString("sub vcl_recv {\n  return(pass);\n}\nsub vcl_deliver {\n" + once(set+"    restart;\n") + "}\n")
+	default: // "recv-pass"
+		sb.WriteString("sub vcl_recv {\n" + set + "  return(pass);\n}\n")
 	}
-	switch c.DType {
-	case "fallback":
-		sb.WriteString("  { .backend = example; }\n  { .backend = second; }\n")
-	case "chash":
-		fmt.Fprintf(&sb, "  { .backend = example; .id = \"a\"; }\n  { .backend = second; .id = \"b\"; }\n")
-	default:
-		fmt.Fprintf(&sb, "  { .backend = example; .weight = 500; }\n  { .backend = second; .weight = %s; }\n", num(c.Weight))
-	}
-	sb.WriteString("}\nsub vcl_recv {\n  set req.backend = d;\n  return(pass);\n}\n")
 	vcl := sb.String()
 	ip := interpreter.New(context.WithResolver(resolver.NewStaticResolver("main", vcl)))
 	ip.Debugger = quiet{}
@@ -1231,4 +1288,90 @@ func runVars(c *tcase) result {
 	ip := interpreter.New(context.WithResolver(resolver.NewStaticResolver("main", vcl)))
 	ip.Debugger = quiet{}
 	return serveHistory(vcl, ip, 1)
+}
+
+// ---------------------------------------------------------------- ESI
+
+func esiTokenText(t string) string {
+	u, _ := url.Parse(stub.URL)
+	switch t {
+	case "T5":
+		return "aaaaa"
+	case "T40":
+		return strings.Repeat("b", 40)
+	case "INCOK":
+		return fmt.Sprintf("<esi:include src=\"http://%s/frag\"/>", u.Host)
+	case "INCFAIL":
+		return "<esi:include src=\"http://127.0.0.1:1/nothing-listens\"/>"
+	case "RS":
+		return "<esi:remove>"
+	case "FB":
+		return "fallback"
+	case "RE":
+		return "</esi:remove>"
+	case "COM":
+		return "<esi:comment text=\"c\"/>"
+	case "HC":
+		return "<!--esi <p>x</p> -->"
+	case "UNT":
+		return "<esi:include src=\"/a\""
+	case "FRAG":
+		return "FRAG"
+	}
+	return t
+}
+
+var esiSeq int
+
+func runEsi(c *tcase) result {
+	backend := stubBackend()
+	var doc, exp strings.Builder
+	for _, t := range c.Doc {
+		doc.WriteString(esiTokenText(t))
+	}
+	for _, t := range c.Out {
+		exp.WriteString(esiTokenText(t))
+	}
+	esiSeq++
+	id := strconv.Itoa(esiSeq)
+	stubMu.Lock()
+	stubBodies[id] = doc.String()
+	stubMu.Unlock()
+	defer func() {
+		stubMu.Lock()
+		delete(stubBodies, id)
+		stubMu.Unlock()
+	}()
+	vcl := backend + "sub vcl_recv {\n  return(pass);\n}\nsub vcl_fetch {\n  esi;\n}\n"
+	ip := interpreter.New(context.WithResolver(resolver.NewStaticResolver("main", vcl)), context.WithActualResponse(true))
+	ip.Debugger = quiet{}
+	text := "esi; in vcl_fetch, origin document: " + doc.String()
+	type answer struct {
+		status int
+		body   string
+	}
+	done := make(chan answer, 1)
+	go func() {
+		req := httptest.NewRequest("GET", "http://localhost/doc", nil)
+		req.Header.Set("X-Body", id)
+		req.RequestURI = "" // the include request is a clone of this one and goes out through an HTTP client
+		rec := httptest.NewRecorder()
+		ip.ServeHTTP(rec, req)
+		hr := rec.Result()
+		b, _ := io.ReadAll(hr.Body)
+		done <- answer{hr.StatusCode, string(b)}
+	}()
+	select {
+	case a := <-done:
+		if a.status >= 500 {
+			return result{Outcome: "error", Msg: firstLine(a.body), Text: text}
+		}
+		r := result{Outcome: "value", Text: text}
+		if !c.ExpErr && a.body != exp.String() {
+			r.PerReq = "body differs: expected " + firstLine(exp.String()) + " got " + firstLine(a.body)
+		}
+		return r
+	case <-time.After(requestBudget):
+		return result{Outcome: "hang", Msg: fmt.Sprintf("the request was not answered within %s", requestBudget), Text: text}
+	}
 }
